@@ -899,14 +899,17 @@ Qed.
 Lemma insert_f_S : forall f h self i c, insert_f (S f) h self i c =
       if is_frag h c then
         let i0 := if (i <? 0)%Z then Z.max (i + Z.of_nat (length (children h self))) 0 else i in
-        if Nat.eqb c self && nonempty (children h c) then (h, RHang)
+        if Nat.eqb c self && nonempty (children h c)
+        then self_loop (for_each_pos (fun h1 j x => insert_f f h1 self j x) h i0
+                          (firstn (Nat.max 1 (Nat.min (Z.to_nat i0) (length (children h c)))) (children h c)))
         else bind (for_each_pos (fun h1 j x => insert_f f h1 self j x) h i0 (children h c)) (fun h1 _ => set_position h1 self c)
       else set_position (set_children h self (py_insert i c (children h self))) self c.
 Proof. reflexivity. Qed.
 
 Lemma append_f_S : forall f h self c, append_f (S f) h self c =
       if is_frag h c then
-        if Nat.eqb c self && nonempty (children h c) then (h, RHang)
+        if Nat.eqb c self && nonempty (children h c)
+        then self_loop (for_each (fun h1 x => append_f f h1 self x) h (children h c))
         else bind (for_each (fun h1 x => append_f f h1 self x) h (children h c)) (fun h1 _ => set_position h1 self c)
       else set_position (set_children h self (children h self ++ [c])) self c.
 Proof. reflexivity. Qed.
